@@ -1,4 +1,5 @@
 import LiquidVerif.Lemmas.Loop
+import LiquidVerif.Lemmas.LoopStack
 /-!
 # C13 — loops visit exactly the documented items
 
@@ -571,6 +572,129 @@ theorem for_renders_spec (e : Env) (m : StopIndex) (spec : LoopSpec) (body : Lis
       exact hv (List.length_eq_zero_iff.mp this)
     rw [if_pos h0, if_neg hv]
     cases iterFor (fun m' s x => renderBlock { e with vars := (spec.ident, x) :: e.vars, loops := s :: e.loops } m' body) m1 (ForState.init vis.length) vis "" <;> rfl
+
+
+/-! ## Outside the quantifier: a limit that is not an integer
+
+The property quantifies over integer limits (literals, variables, numeric strings). What the code does
+with `nil` and with an undefined variable is recorded here so that it is explicit: `nil` is a
+`LiquidTypeError`, an undefined variable reads as 0 (`Undefined.__int__`) and therefore — like
+`limit: 0` — visits nothing. The reference implementation treats both as "no limit"; see notes/C13.md. -/
+
+theorem nil_and_undefined_limit :
+    evalLimit (some .nil) = .error .liquidType ∧ evalLimit (some .undefined) = .ok (some 0) := by
+  simp [evalLimit, toInt, Except.map]
+
+theorem undefined_limit_visits_nothing (ss : Bool) (m : StopIndex) (spec : LoopSpec) (off : Option (Option Int))
+    (hl : spec.limit = some .undefined) (ho : evalOffset spec.offset = .ok off) :
+    ∃ sl, evaluate ss m spec = .ok sl ∧ sl.items = [] ∧ sl.length = 0 := by
+  have hl' : evalLimit spec.limit = .ok (some 0) := by rw [hl]; exact nil_and_undefined_limit.2
+  obtain ⟨sl, h, hi, hlen, _⟩ := evaluate_visits_spec ss m spec (some 0) off hl' ho
+  have h0 := limit_nonpos_visits_nothing (toIter ss spec.obj).1 0 (startOf m spec.key off) (by omega)
+  refine ⟨sl, h, ?_, ?_⟩
+  · rw [hi, h0]; simp
+  · rw [hlen, h0]; rfl
+
+/-! ## The loop stack under exceptions (`Model/LoopStack.lean`) -/
+section LoopStackSection
+open LiquidVerif.LoopStack
+
+/-- **The loop stack is restored however a loop is left**: after rendering any node — completed,
+left by `break`/`continue`, aborted by an error raised in its body at any depth, or refused by the
+context-depth check of its own `extend` — `context.loops` is exactly what it was before. -/
+theorem loop_stack_restored (n : LoopStack.Node) : ∀ (env : LoopStack.Env) (st : LoopStack.St),
+    (LoopStack.render env st n).1.loops = st.loops := by
+  induction n with
+  | nop => intro env st; rfl
+  | text s => intro env st; rfl
+  | fail => intro env st; rfl
+  | ref up f => intro env st; rfl
+  | brk => intro env st; rfl
+  | cont => intro env st; rfl
+  | seq a b iha ihb =>
+    intro env st
+    simp only [render]
+    have ha := iha env st
+    cases hra : render env st a with
+    | mk st' oc =>
+      rw [hra] at ha
+      cases oc with
+      | normal => simp only []; rw [ihb, ha]
+      | brk => simpa using ha
+      | cont => simpa using ha
+      | err e => simpa using ha
+  | for_ n body ih =>
+    intro env st
+    simp only [render]
+    split
+    · rfl
+    · split
+      · rfl
+      · have key := iterLoop_loops
+          (fun s k => render { env with depth := env.depth + 1, forloop := some (LoopObj.mk n k st.loops.head?) }
+                 { s with loops := setFromBottom s.loops st.loops.length (LoopObj.mk n k st.loops.head?) } body)
+          st.loops
+          (by
+            intro s k o hs
+            refine ⟨LoopObj.mk n k st.loops.head?, ?_⟩
+            rw [ih]
+            simp only [hs]
+            exact setFromBottom_top _ _ _)
+          { st with loops := LoopObj.mk n (-1) st.loops.head? :: st.loops } 0 n _ rfl
+        obtain ⟨o', ho'⟩ := key
+        simp only [ho', List.tail_cons]
+  | tablerow n body ih =>
+    intro env st
+    simp only [render]
+    split
+    · rfl
+    · have key := iterRow_loops (fun s _ => render { env with depth := env.depth + 1 } s body)
+        (fun s _ => ih _ s) { st with out := st.out ++ "<tr class=\"row1\">\n" } 0 n
+      cases hr : iterRow (fun s _ => render { env with depth := env.depth + 1 } s body)
+          { st with out := st.out ++ "<tr class=\"row1\">\n" } 0 n with
+      | mk st2 oc =>
+        rw [hr] at key
+        cases oc <;> simpa using key
+
+
+/-- **In every mode a whole render leaves the loop stack as it found it**; in particular after errors
+that lax/warn mode suppressed, later top-level loops start from the same stack. -/
+theorem template_loop_stack_restored (mode : LoopStack.Mode) (d : Nat) (ns : List LoopStack.Node) :
+    ∀ st : LoopStack.St, (renderTemplate mode d st ns).1.loops = st.loops := by
+  induction ns with
+  | nil => intro st; rfl
+  | cons n ns ih =>
+    intro st
+    simp only [renderTemplate]
+    have h := loop_stack_restored n { maxDepth := d, depth := 0, forloop := none } st
+    cases hr : LoopStack.render { maxDepth := d, depth := 0, forloop := none } st n with
+    | mk st' oc =>
+      rw [hr] at h
+      cases oc with
+      | normal => simp only []; rw [ih, h]
+      | brk => simp only []; split; · exact h
+               · rw [ih, h]
+      | cont => simp only []; split; · exact h
+                · rw [ih, h]
+      | err e => simp only []; split; · exact h
+                 · rw [ih, h]
+
+/-- **`parentloop` of a loop is the loop on top of the stack when it starts** — with
+`loop_stack_restored`: the enclosing loop, or undefined for a top-level loop, whatever failed before. -/
+theorem new_loop_parent (env : LoopStack.Env) (st : LoopStack.St) (n : Nat) (f : Ref)
+    (hn : n ≠ 0) (hd : env.depth < env.maxDepth) :
+    (LoopStack.render env st (.for_ n (.seq (.ref 1 f) .brk))).1.out
+      = st.out ++ showRef st.loops.head? f := by
+  obtain ⟨k, rfl⟩ : ∃ k, n = k + 1 := ⟨n - 1, by omega⟩
+  have hd' : ¬ env.depth ≥ env.maxDepth := by omega
+  simp [LoopStack.render, hd', iterLoop, LoopObj.up, LoopObj.parent]
+
+example : (renderTemplate .lax 1 { loops := [], out := "" }
+    [.for_ 2 (.for_ 2 (.text "x")), .for_ 1 (.ref 1 .defined)]).1.out = "-" := by decide
+example : (renderTemplate .lax 5 { loops := [], out := "" }
+    [.for_ 2 (.seq (.text "a") .fail), .for_ 1 (.ref 1 .defined)]).1.out = "a-" := by decide
+
+end LoopStackSection
 
 /-! ## Non-vacuity -/
 
